@@ -80,6 +80,14 @@ func genConforming(t *rapid.T) Case {
 	default:
 		c.Connect = "dial-fail"
 	}
+	if (c.Connect == "dial" || c.Connect == "dialbw") && !c.TCP && rapid.IntRange(0, 3).Draw(t, "second") == 0 {
+		c.Second = true
+		c.LateARQ = rapid.SampledFrom([]int{0, 0, 1, 2}).Draw(t, "late_arq")
+		c.NoDisconnected = rapid.IntRange(0, 2).Draw(t, "no_disconnected") == 0
+		c.Stray = rapid.SampledFrom([]int{0, 1, 1, 3}).Draw(t, "stray")
+		c.SecondFrames = rapid.IntRange(1, 3).Draw(t, "second_frames")
+		c.EarlySeed = rapid.Uint64().Draw(t, "second_seed")
+	}
 	switch c.Connect {
 	case "dial", "dialbw":
 		c.DialScript = append(append([]string{"NEWSTATE ISS"}, pre...), fmt.Sprintf("CONNECTED %s 500", c.Target))
@@ -99,6 +107,12 @@ func genConforming(t *rapid.T) Case {
 			st = Step{Op: "event", Text: rapid.SampledFrom(events).Draw(t, "event")}
 		case k < 72:
 			st = Step{Op: "write", N: writeSize(t), Seed: rapid.Uint64().Draw(t, "seed")}
+			if !c.TCP && rapid.IntRange(0, 3).Draw(t, "concurrent") == 0 {
+				st.Concurrent = true
+				if c.SlowWriteUS == 0 {
+					c.SlowWriteUS = rapid.SampledFrom([]int{1, 60, 200, 500}).Draw(t, "slow_write_us")
+				}
+			}
 			f := 0
 			if !c.TCP {
 				f = rapid.SampledFrom([]int{0, 0, 0, 0, 1, 1, 2, 2, 3}).Draw(t, "faults")
